@@ -31,7 +31,7 @@ def plan(ctx):
     for (k, m, hd) in tabs:
         n = k + m
         sets = list(esets(n, hd, m))
-        lim = 64 if not thorough else 400
+        lim = 64 if not thorough else 160
         if len(sets) > lim:
             sets = rnd.sample(sets, lim)
         for i, ch in enumerate(chunks(sets, 16)):
